@@ -747,6 +747,19 @@ def _own_eq_body(c):
 def m_eq(c):
     if c.callee and "resolved" in c.callee and c.callee["resolved"]["path"] in ():
         return NotImplemented
+    # one and the same object compared with itself (equality of data without floating-point parts is reflexive)
+    a0, _ = c.arg(0)
+    b0, _ = c.arg(1)
+    for _hop in range(2):
+        if isinstance(a0, Ref) and isinstance(b0, Ref) and a0.cell is not None and (a0.cell, a0.path) == (b0.cell, b0.path):
+            tv = c.I.read_loc(c.st, (a0.cell, a0.path))
+            if not isinstance(tv, Ref) and "f64" not in repr(tv) and "f32" not in repr(tv):
+                c.ret(Int.const(1 if c.name.endswith("eq") else 0, 1, False))
+                return
+        if isinstance(a0, Ref) and isinstance(b0, Ref) and a0.cell is not None and b0.cell is not None:
+            a0, b0 = c.I.read_loc(c.st, (a0.cell, a0.path)), c.I.read_loc(c.st, (b0.cell, b0.path))
+        else:
+            break
     body = c.I.prog.bodies.get(c.rname)
     if body is not None:
         return NotImplemented
@@ -776,8 +789,11 @@ def m_eq(c):
         c.ret(v, defn=d)
         return
     # std's own equality on Option / Result / tuples is structural; a type of the program with an eq of its own was handled above
-    if isinstance(a, (Enum, Struct)) and isinstance(b, (Enum, Struct)) and _std_structural(a) and _std_structural(b):
+    if isinstance(a, (Enum, Struct)) and isinstance(b, (Enum, Struct)):
         r = abs_eq(c, a, b)
+        if r is not None and not (_std_structural(a) and _std_structural(b)):
+            # reached through std's impl for references to a type of the program: its equality is taken to be the derived, structural one
+            c.I.assumptions.add("A-EQ: PartialEq of the library's plain data types (PathPart, TagDataType, EBMLSize, Master) is the derived structural equality")
         if r is not None:
             c.ret(Int.const(int(r) if c.name.endswith("eq") else 1 - int(r), 1, False))
             return
@@ -1453,3 +1469,34 @@ def m_slice_contains(c):
         if abs_eq(c, arr.elem, x) is not False:
             may = True
     c.ret(Int.boolean() if may else Int.const(0, 1, False))
+
+
+@model("std::iter::Iterator::zip")
+def m_zip(c):
+    """a.zip(b) over two slice-like iterators: pairs of items, as many as the shorter one has.  When both walk the same container from the start the
+    two components of a pair are the same element (one cell stands for both)"""
+    a, aloc = c.arg(0)
+    b, bloc = c.arg(1)
+    if isinstance(b, Ref):
+        arr, bl_ = arr_at(c, b)
+        if arr is not None:
+            ln, _l = len_lin(c, arr, bl_)
+            b = Iter("slice", ln, arr.elem if not arr.elem.is_bot() else Top(), start=bl_, extra="ref", cells=dict(arr.cells) if arr.cells else None, pos=0)
+    if not (isinstance(a, Iter) and isinstance(b, Iter) and a.ikind == "slice" and b.ikind == "slice"):
+        c.ret(Iter("opaque"))
+        return
+    ra = a.remaining if isinstance(a.remaining, Int) else usize()
+    rb = b.remaining if isinstance(b.remaining, Int) else usize()
+    rem = usize(min(ra.lo, rb.lo), min(ra.hi, rb.hi))
+    ea = a.elem if a.elem is not None and not a.elem.is_bot() else Top()
+    eb = b.elem if b.elem is not None and not b.elem.is_bot() else Top()
+    for x in (a.cells or {}).values():
+        ea = join_val(ea, x)
+    for x in (b.cells or {}).values():
+        eb = join_val(eb, x)
+    ca = new_tmp(c, c.st, ea, "zipa")
+    same = isinstance(a.start, tuple) and a.start == b.start and a.extra == "ref" and b.extra == "ref" and (a.pos or 0) == (b.pos or 0)
+    cb = ca if same else new_tmp(c, c.st, eb, "zipb")
+    ia = Ref(ca, ()) if a.extra == "ref" else ea
+    ib = Ref(cb, ()) if b.extra == "ref" else eb
+    c.ret(Iter("slice", rem, Struct("tuple", [ia, ib]), extra="val"))
